@@ -821,9 +821,7 @@ static bool execute(Plan &plan) {
             case HS_LIST_C: drive<HashW<char, SizeT, true>>(plan, cx, executed); break;
             default: drive<HashW<char16_t, SizeT, true>>(plan, cx, executed); break;
         }
-        if (!qsim::run_aborted() && qsim::live_lib_blocks() != 0)
-            qsim::report("leak", std::string("hash:") + cx.sub, std::to_string(qsim::live_lib_blocks()) +
-                                                                    " library block(s) still allocated after every object was destroyed");
+        if (!qsim::run_aborted()) qsim::check_leaks("hash");
     });
     return executed >= 5;
 }
